@@ -228,6 +228,10 @@ func processComponentChildren(component Component, node *parser.MJMLNode, opts *
 		for _, childNode := range node.Children {
 			if childComponent, err := CreateComponent(childNode, opts); err == nil {
 				comp.Children = append(comp.Children, childComponent)
+
+				// Process nested children (e.g. social elements, navbar links, accordion elements):
+				// without this their content is dropped silently.
+				processComponentChildren(childComponent, childNode, opts)
 			}
 		}
 	case *components.MJCarouselComponent:
